@@ -72,6 +72,13 @@ class Ctx:
             self.violations.append(rec)
         return ok
 
+    def inconclusive(self, rid, instance, where="", detail=""):
+        """An obligation whose shape could not be re-derived after a recognised behaviour-preserving restructuring (e.g. the
+        anchored helper was inlined into its caller). Recorded, counted for the floor, reported in the evidence - not an alarm:
+        the rule has no positive evidence of a violation."""
+        self.extra.setdefault("inconclusive", []).append({"rule": rid, "instance": instance, "where": where, "detail": detail})
+        return self.ob(rid, instance, True, where, "NOT RE-DERIVED: " + detail)
+
     def missing(self, rid, what):
         """Fail closed: an anchor the rule needs was not found."""
         if rid not in self.rules:
